@@ -22,7 +22,7 @@ def variants(rnd, ptlen, aadlen, exhaustive, others):
     tb = range(128) if exhaustive else sorted(set(rnd.randrange(128) for _ in range(16)))
     for b in tb:
         yield ("flip_tag", "", "^flip:%d" % b, "", "^flip:%d" % (nbits_ct + b))
-    ab = range(8 * aadlen) if exhaustive else sorted(set(rnd.randrange(8 * aadlen) for _ in range(min(8 * aadlen, 16))))
+    ab = range(8 * aadlen) if (exhaustive and aadlen <= 64) else sorted(set(rnd.randrange(8 * aadlen) for _ in range(min(8 * aadlen, 16))))
     for b in ab:
         yield ("flip_aad", "", "", "^flip:%d" % b, "")
     # truncations of the whole thing (allocating view) and of the body (in-place view)
@@ -38,6 +38,14 @@ def variants(rnd, ptlen, aadlen, exhaustive, others):
         yield ("extend_tag", "", "^app:" + ext, "", None)
     for k in sorted(set([0, 1, 8, 15] + [rnd.randrange(16)])):
         yield ("trunc_tag", "", "^trunc:%d" % k, "", None)
+    if aadlen > 65535:
+        # associated data longer than a 16-bit length: everything past byte 65535 is authenticated too
+        for b in (8 * 65535, 8 * 65535 + 7, 8 * 65536, 8 * aadlen - 1):
+            if b < 8 * aadlen:
+                yield ("flip_aad_far", "", "", "^flip:%d" % b, "")
+        for k in (65535, 65536, aadlen - 1):
+            if k < aadlen:
+                yield ("trunc_aad_far", "", "", "^trunc:%d" % k, "")
     if aadlen:
         yield ("trunc_aad", "", "", "^trunc:%d" % (aadlen - 1), "")
         yield ("empty_aad", "", "", "^trunc:0", "")
@@ -92,6 +100,10 @@ def build(env, nsess, exhaustive_upto, ss_share):
         mode = rnd.choice(gen.MODES)
         m = gen.add_pair(s, g, kem, mode, info=g.rbytes(rnd.choice([0, 5, 40])))
         nm = rnd.choice([2, 3, 4])
+        if i % 7 == 3:
+            # the last sequence numbers: messages sealed at 2^64-nm .. 2^64-1
+            s.call("set_seq", ctx="S", seq=(1 << 64) - nm)
+            s.call("set_seq", ctx="R", seq=(1 << 64) - nm)
         aads = {}
         lens = {}
         names = []
@@ -99,6 +111,8 @@ def build(env, nsess, exhaustive_upto, ss_share):
             name = "m%d" % j
             lens[name] = rnd.choice(ptlens) if rnd.random() < 0.8 else rnd.choice([100, 257, 1000, 4097])
             al = rnd.choice([0, 1, 7, 16, 33])
+            if i % 11 == 5 and j == 0:
+                al = rnd.choice([65536, 65537, 70001])
             aads[name] = g.rbytes(al)
             lens[name + "a"] = al
             s.call("seal", ctx="S", api=rnd.choice(["alloc", "inplace"]), pt=g.rbytes(lens[name]), aad=aads[name], out=name)
@@ -206,6 +220,27 @@ def monitor(sess, extra):
     return r
 
 
+def build_longrun(env, nfail):
+    """tens of thousands of modified messages against one receiver context, then the genuine one"""
+    g = gen.G(env.rnd)
+    cw = cl.CaseW()
+    aead = gen.SEAL_AEADS[env.seed % 3]
+    s = cw.session(0x0020, 1, aead, sid="long")
+    gen.add_pair(s, g, 0x0020, 0)
+    aads = {"m0": "a0a1"}
+    s.call("seal", ctx="S", api="alloc", pt=g.rbytes(24), aad="a0a1", out="m0")
+    for k in range(nfail):
+        bit = k % (8 * 40)
+        if k % 3 == 0:
+            emit(s, env.rnd, "open_alloc", "m0", aads, "flip_any", "", "", "", "^flip:%d" % bit)
+        elif k % 3 == 1:
+            emit(s, env.rnd, "open_inplace", "m0", aads, "flip_tag", "", "^flip:%d" % (k % 128), "", None)
+        else:
+            emit(s, env.rnd, "open_alloc", "m0", aads, "flip_aad", "", "", "^flip:%d" % (k % 16), "")
+    s.call("open", ctx="R", api="alloc", ct="$m0.full", aad="a0a1", of="m0", variant="control")
+    return cw
+
+
 def build_directed(env, per_aead):
     """Directed rare-event inputs: an empty-plaintext message whose genuine tag ends in one or more
     zero bytes (probability 2^-8 per message).  The context is built from raw key material, so the
@@ -250,7 +285,7 @@ def build_directed(env, per_aead):
     return cw, found
 
 
-MONITORS = {"tamper": monitor, "directed": monitor}
+MONITORS = {"tamper": monitor, "directed": monitor, "longrun": monitor}
 
 
 def run(env):
@@ -265,6 +300,9 @@ def run(env):
     env.require_complete(res2, "directed")
     env.pmap(monitor, res2.sessions, workload="directed")
     env.extra_cov["directed_zero_tag_messages"] = found
+    res3 = env.drive("longrun", build_longrun(env, env.pick(66000, 140000)).text())
+    env.require_complete(res3, "longrun")
+    env.pmap(monitor, res3.sessions, workload="longrun")
     need = ["iface:open", "iface:open_in_place_detached", "iface:ss_open", "iface:ss_open_in_place_detached"]
     missing = [k for k in need if mr.counts[k] < 20]
     if missing and not env.violations:
